@@ -1,5 +1,6 @@
 import ParryModel.C14.Lemmas
 import ParryModel.C14.Theorems2
+import ParryModel.C14.Theorems3
 /-!
 # C14 property theorems: persistent contact manifolds, for every linearly ordered field.
 
